@@ -6,7 +6,6 @@ Everything runs against the tree under test ($VERIF_REPO); nothing in the reposi
 """
 import hashlib
 import itertools
-import random
 import sys
 import threading
 import warnings
